@@ -999,6 +999,140 @@ func c09portability(tier string, rng *prng) {
 	}
 }
 
+// independent writing of an action set as an encoding (harness-side): one upper-case hexadecimal numeral without
+// leading zeros per 64 flags, least significant word first, ':' between words
+func c09refEncode(bits []bool) string {
+	words := []string{}
+	for w := 0; 64*w < len(bits); w++ {
+		v := new(big.Int)
+		for k := 0; k < 64 && 64*w+k < len(bits); k++ {
+			if bits[64*w+k] {
+				v.SetBit(v, k, 1)
+			}
+		}
+		words = append(words, strings.ToUpper(v.Text(16)))
+	}
+	return strings.Join(words, ":")
+}
+
+// portability on GENERATED catchments whose number of management actions sits on and around the 64-bit word
+// boundaries of the encoding (the shipped data sets have 13 and 15 actions): Compress -> Encoding -> Decode ->
+// Decompress between independently constructed instances, for the action sets that fill / straddle the words.
+func c09portabilitySized(tier string, rng *prng) {
+	sizes := []int{63, 64, 65, 128}
+	nRandom := 10
+	if tier == "thorough" {
+		sizes = []int{1, 2, 62, 63, 64, 65, 66, 127, 128, 129, 191, 192, 193, 256}
+		nRandom = 60
+	}
+	compressor := new(modelArchive.ModelCompressor)
+	for _, n := range sizes {
+		meta, cleanup, _ := catchSizedDataset(rng, n)
+		name := fmt.Sprintf("generated_%03d_actions", n)
+		src := c09buildModel(meta)
+		if len(src.ManagementActions()) != n {
+			panic("generated catchment does not offer the requested number of actions")
+		}
+		insts := []model.Model{c09buildModel(meta), c09buildModel(meta)}
+		clone := src.DeepClone()
+		clone.Initialise(model.AsIs)
+		insts = append(insts, clone)
+		instKeys := []interface{}{c09keysOf(src)}
+		for _, m := range insts {
+			ks := c09keysOf(m)
+			instKeys = append(instKeys, ks)
+			if fmt.Sprint(ks) != fmt.Sprint(instKeys[0]) {
+				emit(J{"kind": "oracle", "what": "two instances of the same scenario list their management actions in different orders",
+					"dataset": name, "keys1": instKeys[0], "keys2": ks})
+			}
+		}
+		for k := 0; k < 3; k++ {
+			g := []interface{}{}
+			for _, a := range src.VerifGatherActions() {
+				g = append(g, c09key(a))
+			}
+			instKeys = append(instKeys, g)
+		}
+		emit(J{"kind": "case", "t": "inst", "dataset": name, "n": n, "instances": instKeys})
+		c09stats["instances_"+name] = len(insts) + 1
+		c09stats["actions_"+name] = n
+
+		sets := [][]bool{}
+		for _, pt := range []string{"ones", "alt0", "alt1"} {
+			sets = append(sets, c09pattern(n, pt, 0, rng))
+		}
+		sets = append(sets, make([]bool, n))
+		for _, k := range []int{0, 62, 63, 64, 65, 126, 127, 128, 129, 190, 191, 192, n - 2, n - 1} {
+			if k >= 0 && k < n {
+				sets = append(sets, c09pattern(n, "single", k, rng))
+				all := c09pattern(n, "ones", 0, rng)
+				all[k] = false
+				sets = append(sets, all)
+			}
+		}
+		for w := 0; 64*w < n; w++ { // exactly one word's worth of actions
+			set := make([]bool, n)
+			for i := range set {
+				set[i] = i/64 == w
+			}
+			sets = append(sets, set)
+		}
+		for i := 0; i < nRandom; i++ {
+			sets = append(sets, c09pattern(n, "random", 0, rng))
+		}
+		seenEnc := map[string]string{}
+		for si, bits := range sets {
+			for i, b := range bits {
+				src.SetManagementAction(i, b)
+			}
+			compressed := compressor.Compress(src)
+			enc := compressed.Encoding()
+			if want := c09refEncode(bits); enc != want {
+				emit(J{"kind": "oracle", "what": "the encoding of a model's action set is not the canonical text of that set",
+					"dataset": name, "n": n, "bits": c09bits(bits), "encoding": enc, "want": want})
+			}
+			dst := insts[si%len(insts)]
+			before := c09active(dst)
+			shell := compressor.Compress(dst)
+			var err error
+			p, what := protect(func() {
+				err = shell.Decode(enc)
+				if err == nil {
+					compressor.Decompress(shell, dst)
+				}
+			})
+			ok := !p && err == nil
+			emit(J{"kind": "case", "t": "port", "dataset": name, "n": n, "bits": c09active(src), "enc": c09str(enc),
+				"ok": ok, "before2": before, "active2": c09active(dst)})
+			c09stats["port_cases_"+name]++
+			c09stats["port_cases_generated"]++
+			bad := !ok || c09activeKeys(dst) != c09activeKeys(src) || fmt.Sprint(c09active(dst)) != fmt.Sprint(c09bits(bits))
+			v1, v2 := c09values(src), c09values(dst)
+			valuesDiffer := len(v1) != len(v2)
+			for i := range v1 {
+				if !valuesDiffer && math.Abs(v1[i]-v2[i]) > 1e-6 {
+					valuesDiffer = true
+				}
+			}
+			if bad || valuesDiffer {
+				emit(J{"kind": "oracle", "what": "decoding a model's encoding into another instance of the same scenario does not reproduce its active set / values",
+					"dataset": name, "n": n, "bits": c09bits(bits), "encoding": enc, "panicked": p, "panic": what, "error": fmt.Sprint(err),
+					"active1": c09activeKeys(src), "active2": c09activeKeys(dst), "values1": v1, "values2": v2, "active_differs": bad})
+			}
+			key := fmt.Sprint(c09bits(bits))
+			if prev, dup := seenEnc[enc]; dup && prev != key {
+				emit(J{"kind": "oracle", "what": "two different action sets of one scenario have the same encoding",
+					"dataset": name, "n": n, "bits1": prev, "bits2": key, "encoding": enc})
+			}
+			seenEnc[enc] = key
+			if !shell.IsEquivalentTo(compressed) {
+				emit(J{"kind": "oracle", "what": "decoded state is not IsEquivalentTo the compressed source state", "dataset": name, "n": n, "bits": c09bits(bits)})
+			}
+		}
+		cleanup()
+	}
+}
+
 func runC09(args []string) {
 	tier := "quick"
 	if len(args) > 0 {
@@ -1053,6 +1187,7 @@ func runC09(args []string) {
 	}
 	c09orderCases(tier, rng)
 	c09portability(tier, rng)
+	c09portabilitySized(tier, rng)
 
 	st := J{}
 	for k, v := range c09stats {
